@@ -314,7 +314,10 @@ class C19(Check):
     assumptions = ['the traversal reads handles with read() (read-all) and walks RomFS trees with fs.walk']
 
     def setup_worker(self):
+        import sys
         resource.setrlimit(resource.RLIMIT_AS, (4 << 30, 4 << 30))
+        # a reader whose constructor raised is finalised half-built; CPython prints "Exception ignored in __del__" for those
+        sys.unraisablehook = lambda *a: None
 
     def budget(self, tier):
         return 2000 if tier == "quick" else 12000
